@@ -14,7 +14,7 @@ import tempfile
 
 ID, X = sys.argv[1], sys.argv[2]
 wt = "/tmp/wt/%s" % ID
-out = "/tmp/wt-out/%s" % ID
+out = os.environ.get("WT_OUT", "/tmp/wt-out") + "/%s" % ID
 env = dict(os.environ, CARGO_NET_OFFLINE="true")
 
 
